@@ -30,6 +30,9 @@ type Tag struct {
 	C7 sql.NullInt64
 	C8 bool
 	C9 CustomVal
+	// self-referential belongs-to: lets chains use association joins with a handle of ON conditions
+	ParentID *int64
+	Parent   *Tag
 }
 
 // Status is a named 8-bit integer type.
